@@ -563,8 +563,12 @@ def main():
                       'proved part (Properties_C01.v): for expressions (literals, globals, locals, value formals, + - = < ~ and or, spills) and '
                       'statements (skip stop return if while sequence assignment exit put) of the form the code generator reads (after XConstProp.front), '
                       'the code of the model cg/cs run on Isa.run shows the behaviour XSem gives (C01_expr_fragment_partial, C01_stmt_fragment_partial); '
+                      'and for procedure-call statements with call-free actuals to procedures with value formals and var locals that hide no global '
+                      '(prologue, body, epilogue before the peepholes; recursion included; stack budget from XSem\'s depth bound) the same holds by a '
+                      'program-level induction (C01_calls_partial, C01_call_ok_partial); '
                       'the model is tied to the real xcmp on generated procedures (fragment_model_tie: identical code up to label names, incl. prologue, epilogue and peepholes); '
-                      'NOT proved: calls, get, arrays, strings, the peephole pass, whole-program layout -- decided per program by this check']
+                      'NOT proved: function calls and calls inside operands, array/proc formals, shadowing of globals, get, arrays, strings, the peephole pass, '
+                      'the entry stub and whole-program layout -- decided per program by this check']
     if os.path.exists(os.path.join(vlib.COQ, 'Properties_%s.v' % PID)):
         ok = ck.proofs()
         ck.log('proofs', 'ok' if ok else 'BROKEN')
